@@ -10,6 +10,7 @@ z-score pipeline into Gallina (Generated/ZClip.v, owner C06).
   nipy/modalities/fmri/glm.py, nipy/labs/glm/glm.py
       DEF_TINY = <float literal>;  DEF_DOFMAX = <float literal>
       Contrast.p_value / contrast.pvalue: the calls `sps.<dist>.<fn>(...)` in source order
+      Contrast.stat / contrast.stat: whether the body contains `self.p_value_ = None` / `self._pvalue = None`
 
 The constants are emitted as the exact rational value of the binary64 number
 Python computes (so `1. - 1e-16` becomes 1 - 2^-53, and `1. - 1e-17` would
@@ -106,6 +107,23 @@ def _tail_calls(tree, cls, meth):
     raise Unsupported("%s.%s not found" % (cls, meth))
 
 
+def _stat_drops_cache(tree, cls, meth, attr):
+    """does <cls>.<meth> contain the statement `self.<attr> = None` (cache invalidation)?"""
+    for st in tree.body:
+        if isinstance(st, ast.ClassDef) and st.name == cls:
+            for m in st.body:
+                if isinstance(m, ast.FunctionDef) and m.name == meth:
+                    for n in ast.walk(m):
+                        if isinstance(n, ast.Assign) and len(n.targets) == 1 and isinstance(n.targets[0], ast.Attribute) \
+                                and isinstance(n.targets[0].value, ast.Name) and n.targets[0].value.id == "self" \
+                                and n.targets[0].attr == attr:
+                            if isinstance(n.value, ast.Constant) and n.value.value is None:
+                                return True
+                            raise Unsupported("%s.%s assigns self.%s something other than None" % (cls, meth, attr))
+                    return False
+    raise Unsupported("%s.%s not found" % (cls, meth))
+
+
 def _pairs(calls):
     return "[" + "; ".join('("%s", "%s", %d%%nat)' % c for c in calls) + "]"
 
@@ -120,6 +138,8 @@ def translate(repo):
     cl = _module_consts(lb, ["DEF_TINY", "DEF_DOFMAX"])
     tf = _tail_calls(fm, "Contrast", "p_value")
     tl = _tail_calls(lb, "contrast", "pvalue")
+    df = _stat_drops_cache(fm, "Contrast", "stat", "p_value_")
+    dl = _stat_drops_cache(lb, "contrast", "stat", "_pvalue")
     txt = "\n".join([
         "(* GENERATED by harness/translate/zclip.py from %s, %s, %s - do not edit *)" % (UTILS, FMRI, LABS),
         "From Coq Require Import String List QArith.",
@@ -136,7 +156,11 @@ def translate(repo):
         "(* scipy.stats calls (distribution, function, number of positional arguments) in source order *)",
         "Definition fmri_pvalue_calls : list (string * string * nat) := %s." % _pairs(tf),
         "Definition labs_pvalue_calls : list (string * string * nat) := %s." % _pairs(tl),
+        "(* does stat() contain `self.p_value_ = None` / `self._pvalue = None` (invalidates the cached p-value)? *)",
+        "Definition fmri_stat_drops_pvalue : bool := %s." % ("true" if df else "false"),
+        "Definition labs_stat_drops_pvalue : bool := %s." % ("true" if dl else "false"),
         ""])
     meta = {"source": [UTILS, FMRI, LABS], "z_lo": lo, "z_hi": hi, "z_quantile_fn": list(qfn),
-            "fmri_pvalue_calls": tf, "labs_pvalue_calls": tl}
+            "fmri_pvalue_calls": tf, "labs_pvalue_calls": tl,
+            "fmri_stat_drops_pvalue": df, "labs_stat_drops_pvalue": dl}
     return txt, meta
